@@ -130,17 +130,20 @@ def _process_step_expression(
             # found and it and it sets the new targets to the entire list
             # of assets identified during the entire transitive recursion.
             new_target_assets = []
-            for target_asset in target_assets:
-                new_target_assets.extend(model.\
-                    get_associated_assets_by_field_name(target_asset,
-                        step_expression['stepExpression']['name']))
-            if new_target_assets:
-                (additional_assets, _) = _process_step_expression(
-                    lang_graph, model, new_target_assets, step_expression)
-                new_target_assets.extend(additional_assets)
-                return (new_target_assets, None)
-            else:
-                return ([], None)
+            visited_ids = set()
+            frontier = target_assets
+            while frontier:
+                next_frontier = []
+                for target_asset in frontier:
+                    for asset in model.get_associated_assets_by_field_name(
+                            target_asset,
+                            step_expression['stepExpression']['name']):
+                        if asset.id not in visited_ids:
+                            visited_ids.add(asset.id)
+                            new_target_assets.append(asset)
+                            next_frontier.append(asset)
+                frontier = next_frontier
+            return (new_target_assets, None)
 
         case 'subType':
             new_target_assets = []
